@@ -68,7 +68,8 @@ class DetGrammar(Grammar, ABC, Generic[U, V, W]):
         return out
 
     def __hash__(self) -> int:
-        return hash((self.start, str(self.rules)))
+        # == compares the rule dicts, whose insertion order may differ: hash the set of non-terminals
+        return hash((self.start, frozenset(self.rules)))
 
     def __rule_to_str__(self, P: DerivableProgram, out: V) -> str:
         return "{}: {}".format(P, out)
